@@ -232,6 +232,7 @@ package topic
 //@   at call 3 search bind s3
 //@   ghostdef visited[q] := ((c1 || c2) && isnil(q)) || acc1[q] || acc2[q] || (s3 && !isnil(q) && lhd(q) == segf(topic, t.separator) && s3_visited[ltl(q)])
 //@   ghostdef got[v] := ((c1 || c2) && inl(node.values, v)) || gacc1[v] || gacc2[v] || (s3 && s3_got[v])
+//@   ensures [sound-stored] forall q Lv {visited[q]} :: visited[q] ==> stored(node, q)
 //@   ensures [sound] okf(t, lv(topic, t.separator)) ==> forall q Lv {visited[q]} :: visited[q] ==> stored(node, q) && M(t, lv(topic, t.separator), q)
 //@   ensures [complete] okf(t, lv(topic, t.separator)) && !anystop ==> forall q Lv {stored(node, q)} :: stored(node, q) && M(t, lv(topic, t.separator), q) ==> visited[q]
 //@   at exit assert [w-here] (c1 || c2) ==> visited[lnil()]
@@ -247,6 +248,7 @@ package topic
 //@   modifies anystop, seen
 //@   loop 1 invariant [wf] wf() && isnode[node] && (old(anystop) ==> anystop)
 //@   loop 1 invariant [vals-kept] forall n *node {elemarr(n.values)} {old(elemarr(n.values))} :: isnode[n] ==> elemarr(n.values) == old(elemarr(n.values))
+//@   loop 1 invariant [sound-stored] forall q Lv {acc1[q]} :: acc1[q] ==> stored(node, q)
 //@   loop 1 invariant [sound] okf(t, lv(topic, t.separator)) ==> forall q Lv {acc1[q]} :: acc1[q] ==> stored(node, q) && M(t, lv(topic, t.separator), q)
 //@   loop 1 invariant [complete] okf(t, lv(topic, t.separator)) && !anystop ==> forall q Lv {stored(node, q)} :: !isnil(q) && visited[lhd(q)] && stored(node, q) && M(t, lv(topic, t.separator), q) ==> acc1[q]
 //@   loop 1 invariant [seen] forall v iface {seen[v]} :: seen[v] <==> (old(seen[v]) || (c2 && inl(node.values, v)) || gacc1[v])
@@ -254,6 +256,7 @@ package topic
 //@   loop 1 invariant [got-complete] forall q Lv, j int {at(node, q).values[j]} :: acc1[q] && 0 <= j && j < len(at(node, q).values) ==> gacc1[at(node, q).values[j]]
 //@   loop 2 invariant [wf] wf() && isnode[node] && (old(anystop) ==> anystop)
 //@   loop 2 invariant [vals-kept] forall n *node {elemarr(n.values)} {old(elemarr(n.values))} :: isnode[n] ==> elemarr(n.values) == old(elemarr(n.values))
+//@   loop 2 invariant [sound-stored] forall q Lv {acc2[q]} :: acc2[q] ==> stored(node, q)
 //@   loop 2 invariant [sound] okf(t, lv(topic, t.separator)) ==> forall q Lv {acc2[q]} :: acc2[q] ==> stored(node, q) && M(t, lv(topic, t.separator), q)
 //@   loop 2 invariant [complete] okf(t, lv(topic, t.separator)) && !anystop ==> forall q Lv {stored(node, q)} :: !isnil(q) && visited[lhd(q)] && stored(node, q) && M(t, lv(topic, t.separator), q) ==> acc2[q]
 //@   loop 2 invariant [seen] forall v iface {seen[v]} :: seen[v] <==> (old(seen[v]) || gacc1[v] || gacc2[v])
